@@ -268,6 +268,7 @@ func vhChain(n int) *vhLedger {
 	l := vhGenesisLedger("A", vhAmount("supply"))
 	for i := 1; i <= n; i++ {
 		v := vhTransfer(i, vhWallet("iss"+verifrt.Itoa(i)), vhWallet("rcv"+verifrt.Itoa(i)), vhAmount("amt"+verifrt.Itoa(i)), nil, vhPeerAddr, uint64(50+i))
+		verifrt.Assume(!v.Transaction.IsEmpty()) // admitted vertices never carry an empty transaction (C10)
 		l.add(v, i-1)
 	}
 	return l
